@@ -11,12 +11,13 @@ that the property admits is pushed through the REAL pipeline  pyscf_interface.pr
 private scratch directory -> mpi_jax._prep_afqmc -> ham.build_*_intermediates -> prop.init_prop_data,
 and judged against pyscf as an independent SCF / FCI / CC solver:
 
-  (1) e_estimate (= the trial's variational energy, the initial walkers being the trial determinant)
-      and trial.calc_energy at the trial determinant           == pyscf SCF energy
+  (1) e_estimate = trial.calc_energy on the initial walkers, which are the trial determinant itself
+      (judged only where the walker container can represent it)  == pyscf SCF energy
   (2) lowest eigenvalue of the WRITTEN (h0, h1, chol) read back from FCIDUMP_chol (pyscf direct_spin1
       on eri = chol^T chol; Fock-space model of mc/fock.py as a cross-check for <= 4 orbitals)
                                                                == pyscf FCI (frozen-core CASCI)
-  (3) cisd / ucisd mixed energy at the reference determinant  == CCSD / UCCSD total energy
+  (3) cisd / ucisd mixed energy at the reference determinant (e_estimate and an explicit
+      trial.calc_energy on identity-column walkers)             == CCSD / UCCSD total energy
   (4) header electron count / spin / sizes, trial.nelec, tr rdm1 == mol.nelec minus the frozen core
 
 Tolerances are derived, not fitted (see `bounds`): the pivoted Cholesky residual R = ERI - L^T L is
@@ -396,9 +397,10 @@ def cells_of_system(sd, tier):
 
     Full product mean field x norb_frozen x {3 thresholds, DF} x basis_coeff letter for the minimal-basis
     molecules; the letters that only repeat another one are crossed with a reduced set: the ROHF class on a
-    closed shell (same orbitals as RHF), the second high-spin state of a molecule, the first and third rung of
-    the geometry ladder (the full product runs on the second = equilibrium and fourth = stretched rung), 6-31G (one threshold + DF, two basis letters), lattice models
-    (threshold axis at U=4 with the examples' basis_coeff=eye; the other basis letters and CC at U=4 resp. U in {1,4})."""
+    closed shell (same orbitals as RHF), the second high-spin state of a molecule, the first and third rung
+    of the geometry ladder (the full product runs on the second = equilibrium and the fourth = stretched
+    rung), 6-31G (one threshold + DF, two basis letters), lattice models (threshold axis at U=4 with the
+    examples' basis_coeff=eye; the other basis letters at U=4, CC at U in {1,4})."""
     na, nb = _nelec_of(sd)
     nao = _nao_of(sd)
     path = "integrals" if sd["kind"] in ("hub", "molint") else "mol"
@@ -711,7 +713,6 @@ def eval_cell(cell, sysobj, seed, res=None, tmp_root=None):
     pi, mj, jnp = lib()
     res = res if res is not None else Result()
     viol = []
-    sd = cell["sys"]
     na, nb = sysobj.nelec
     fr = cell["frozen"]
     na_act, nb_act = na - fr, nb - fr
@@ -868,22 +869,19 @@ def eval_cell(cell, sysobj, seed, res=None, tmp_root=None):
                 ham_data = ham.build_propagation_intermediates(ham_data, prop, trial, wave_data)
                 if tr in ("cisd", "ucisd"):
                     # float32 contraction sum_g L_pt L_qu c_ptqu: 3 roundings per product + float32 accumulation
-                    nv = nact - na_act
-                    Lov = np.abs(w_chol[:, :na_act, na_act:]) if tr == "cisd" else None
-                    f32 = 0.0
+                    La = np.abs(w_chol[:, :na_act, na_act:])
                     if tr == "cisd":
                         c2 = np.abs(np.asarray(wave_data["ci2"]))
-                        s = np.einsum("gpt,gqu,ptqu->", Lov, Lov, c2) * 3.0
-                        f32 = (4 + np.log2(max(2, c2.size))) * U32 * s
+                        s32 = 3.0 * np.einsum("gpt,gqu,ptqu->", La, La, c2)
+                        nterm = c2.size
                     else:
                         mob = np.asarray(wave_data["mo_coeff"][1])
-                        cb = np.abs(np.einsum("pi,gij,jq->gpq", mob.T, w_chol, mob))
-                        La = np.abs(w_chol[:, :na_act, na_act:])
-                        Lb = cb[:, :nb_act, nb_act:]
-                        s = 0.5 * np.einsum("gpt,gqu,ptqu->", La, La, np.abs(np.asarray(wave_data["ci2AA"]))) \
+                        Lb = np.abs(np.einsum("pi,gij,jq->gpq", mob.T, w_chol, mob))[:, :nb_act, nb_act:]
+                        s32 = 0.5 * np.einsum("gpt,gqu,ptqu->", La, La, np.abs(np.asarray(wave_data["ci2AA"]))) \
                             + 0.5 * np.einsum("gpt,gqu,ptqu->", Lb, Lb, np.abs(np.asarray(wave_data["ci2BB"]))) \
                             + np.einsum("gpt,gqu,ptqu->", La, Lb, np.abs(np.asarray(wave_data["ci2AB"])))
-                        f32 = (4 + np.log2(max(2, np.asarray(wave_data["ci2AB"]).size))) * U32 * s
+                        nterm = np.asarray(wave_data["ci2AB"]).size
+                    f32 = (4 + np.log2(max(2, nterm))) * U32 * s32
                     tol = tol + float(f32)
                 representable = (wt == "uhf") or restricted_ok
                 stage = "init_prop_data"
@@ -903,12 +901,14 @@ def eval_cell(cell, sysobj, seed, res=None, tmp_root=None):
                     e_det = float(np.real(np.asarray(trial.calc_energy(walkers, ham_data, wave_data))[0]))
                     res.add(traces=1)
                 res.add(traces=1)
-            except NotImplementedError as e:  # the library refuses this container for this trial: not judged
-                res.guard("option_refused_NotImplementedError[%s/%s]" % (tr, wt))
-                outcomes[(tr, wt)] = ("refused", str(e)[:80])
-                continue
-            except Exception as e:  # noqa: BLE001 -- an energy that cannot be computed is not equal to anything
-                outcomes[(tr, wt)] = ("raised", stage, "%s: %s" % (type(e).__name__, str(e)[:200]))
+            except Exception as e:  # noqa: BLE001
+                if isinstance(e, NotImplementedError) and (tr, wt) == ("cisd", "uhf"):
+                    # the restricted cisd class defines no unrestricted-walker energy and says so: an explicit
+                    # refusal of this option pair, outside what the property speaks about -- counted, not judged
+                    res.guard("option_refused_NotImplementedError[cisd/uhf]")
+                    outcomes[(tr, wt)] = ("refused", str(e)[:80])
+                else:  # an energy that cannot be computed is not equal to anything
+                    outcomes[(tr, wt)] = ("raised", stage, "%s: %s" % (type(e).__name__, str(e)[:200]))
                 continue
             if not representable:
                 res.guard("restricted_walkers_cannot_represent_spin_polarised_trial")
@@ -1000,13 +1000,17 @@ def job(j):
 
 
 def run(ctx):
-    ctx.rule = ("cells = system (5 molecules x 4-point geometry ladder x basis set x spin state; Hubbard chains/rings x U x "
-                "filling and ab-initio integrals through the `integrals` argument) x mean field x norb_frozen x "
-                "{chol_cut in 1e-4,1e-6,1e-8 | density fitting} x basis_coeff letter x {mf, CCSD, UCCSD} restricted to what the "
-                "property admits, each crossed with every walker_type x trial option the written files define; thorough = "
-                "the whole matrix, quick = a deterministic greedy covering array (every letter, every listed pair of letters); "
-                "a state is one (cell, option) energy comparison, one FCI comparison or one header comparison; non-trivial & "
-                "distinct = distinct (reference energy, option, path letters)")
+    ctx.rule = ("cells = system (5 molecules x 4-rung geometry ladder x {sto-3g, 6-31g} x spin states; Hubbard chains/rings of 2-6 "
+                "sites x U in {1,4,8} x fillings; ab-initio integrals through the `integrals` argument) x mean field {RHF, ROHF, UHF} x "
+                "norb_frozen {0,1} x {chol_cut in 1e-4,1e-6,1e-8 | density fitting} x basis_coeff letter {default, rotated, Loewdin, "
+                "truncated | eye, MO, rotated} x {mean-field object, CCSD, UCCSD}, restricted to what the property admits, each crossed "
+                "with the walker_type x trial options the written files define (full cross on the default basis, natural pairs on the "
+                "other basis letters). thorough = every cell of that matrix, where the full product is taken on the equilibrium and "
+                "the stretched rung of the minimal-basis molecules and at U=4, and the repeating letters (closed-shell ROHF, second "
+                "high-spin state, rungs 1 and 3, 6-31g, U=1,8) are crossed with {1e-6, DF} x {default, rotated} only; quick = a "
+                "deterministic greedy covering array of the same matrix (every letter, every listed pair of letters) plus 3 "
+                "coupled-cluster sentinels. A state is one (cell, option) energy comparison, one exact-ground-state comparison or one "
+                "header comparison; non-trivial & distinct = distinct (reference energy, option, path letters)")
     ctx.assume("pyscf 2.14 SCF / FCI / CCSD are correct and independent of ad_afqmc (the oracle)")
     ctx.assume("energy tolerances follow from the pivoted-Cholesky residual bound (PSD, diagonal <= chol_cut) -- see bounds()")
     jobs, n_full, n_sel = build_jobs(ctx.tier, ctx.seed)
